@@ -17,6 +17,7 @@ import (
 	"runtime"
 	"runtime/debug"
 	"sort"
+	"sync"
 	"syscall"
 	"time"
 
@@ -48,6 +49,10 @@ func mark(kind string, i int, text string) {
 }
 
 const namespace = "verif-ns"
+
+// completedRefreshes is how many finished refreshes of a digest the metainfo
+// endpoint may answer 202 to before that is judged a permanent failure.
+const completedRefreshes = 3
 
 func storeConfig(root string, memCache bool) store.CAStoreConfig {
 	cfg := store.CAStoreConfig{
@@ -183,8 +188,20 @@ func work(specPath, root string) error {
 }
 
 // scriptedBackend is the storage backend behind the origin: it holds the
-// workload's blobs.
-type scriptedBackend struct{ blobs map[string][]byte }
+// workload's blobs and counts the downloads it was asked for per blob. The
+// refresher runs at most one refresh per digest at a time, so the k-th download
+// start for d proves that k-1 refreshes of d have completed.
+type scriptedBackend struct {
+	blobs  map[string][]byte
+	mu     *sync.Mutex
+	starts map[string]int
+}
+
+func (b scriptedBackend) downloadStarts(name string) int {
+	b.mu.Lock()
+	defer b.mu.Unlock()
+	return b.starts[name]
+}
 
 func (b scriptedBackend) Stat(ns, name string) (*core.BlobInfo, error) {
 	if v, ok := b.blobs[name]; ok {
@@ -198,6 +215,9 @@ func (b scriptedBackend) Download(ns, name string, dst io.Writer) error {
 	if !ok {
 		return backenderrors.ErrBlobNotFound
 	}
+	b.mu.Lock()
+	b.starts[name]++
+	b.mu.Unlock()
 	_, err := dst.Write(v)
 	return err
 }
@@ -239,7 +259,7 @@ func observe(req c05wl.RecoverReq) (resp c05wl.RecoverResp) {
 		resp.OpenErr = "harness: " + err.Error()
 		return
 	}
-	sb := scriptedBackend{blobs: map[string][]byte{}}
+	sb := scriptedBackend{blobs: map[string][]byte{}, mu: &sync.Mutex{}, starts: map[string]int{}}
 	for _, b := range req.Blobs {
 		sb.blobs[digestOf(b).Hex()] = b
 	}
@@ -291,7 +311,7 @@ func observe(req c05wl.RecoverReq) (resp c05wl.RecoverResp) {
 		// metainfo endpoint: 200, or 202 followed by 200; anything else is retried twice more
 		url := fmt.Sprintf("%s/internal/namespace/%s/blobs/sha256:%s/metainfo", ts.URL, namespace, name)
 		failures := 0
-		for polls := 0; polls < 200; polls++ {
+		for polls := 0; polls < 1000; polls++ {
 			hr, err := http.Get(url)
 			if err != nil {
 				o.LastBody = "transport: " + err.Error()
@@ -307,7 +327,13 @@ func observe(req c05wl.RecoverReq) (resp c05wl.RecoverResp) {
 			}
 			o.LastBody = string(body)
 			if hr.StatusCode == http.StatusAccepted {
-				time.Sleep(25 * time.Millisecond)
+				// decided by logical steps: this 202 was answered although
+				// completedRefreshes refreshes of the digest had already finished
+				if sb.downloadStarts(name) > completedRefreshes {
+					o.Still202AfterRefreshes = true
+					break
+				}
+				time.Sleep(10 * time.Millisecond)
 				continue
 			}
 			failures++
@@ -316,8 +342,9 @@ func observe(req c05wl.RecoverReq) (resp c05wl.RecoverResp) {
 			}
 			time.Sleep(25 * time.Millisecond)
 		}
-		if n := len(o.Statuses); n > 0 && o.Statuses[n-1] == http.StatusAccepted {
-			o.StillPending = true
+		o.RefreshDownloads = sb.downloadStarts(name)
+		if n := len(o.Statuses); n > 0 && o.Statuses[n-1] == http.StatusAccepted && !o.Still202AfterRefreshes {
+			o.StillPending = true // a refresh never completed within the watchdog
 		}
 		var tm metadata.TorrentMeta
 		if err := cas.GetCacheFileMetadata(name, &tm); err != nil {
